@@ -79,6 +79,8 @@ struct World<'a> {
     class: u64,
     produced_windows: BTreeSet<u64>,
     safety_panic: bool,
+    /// appended to the failure text of the safety-assert oracle (names the directed case)
+    ctx: String,
 }
 
 fn vote_parts(keys: &Keys, v: &Vote) -> (K, u64, usize, usize) {
@@ -119,10 +121,46 @@ impl World<'_> {
         out.join(" ; ")
     }
 
+    /// The safety statements of C01 evaluated on the global history of the votes cast so far (correct validators' broadcasts and
+    /// the votes the Byzantine validators were made to sign): at most one notarized block per slot, at most one finalized
+    /// block per slot, finalized blocks pairwise on one chain, no finalized slot with a skip certificate.
+    fn history_safe(&self) -> bool {
+        let t = self.total;
+        let mut notarized: BTreeMap<u64, Vec<usize>> = BTreeMap::new();
+        let mut finalized: Vec<(u64, usize)> = Vec::new();
+        for (&h, &(s, _, _)) in &self.blocks {
+            if h == 0 { continue; }
+            let nw = self.stake_where(|u| self.cast(u, HV::Notar(s, h)));
+            if met(3, nw, t) { notarized.entry(s).or_default().push(h); }
+            let fin = met(3, self.stake_where(|u| self.cast(u, HV::Fin(s))), t);
+            if met(4, nw, t) || (fin && met(3, nw, t)) { finalized.push((s, h)); }
+        }
+        if notarized.values().any(|v| v.len() > 1) { return false; }
+        let anc = |mut x: usize, target: usize| -> bool { loop { if x == target { return true; } if x == 0 { return false; } x = self.blocks[&x].2; } };
+        for i in 0..finalized.len() {
+            let (s, h) = finalized[i];
+            if met(3, self.stake_where(|u| self.cast(u, HV::Skip(s)) || self.cast(u, HV::Sf(s))), t) { return false; }
+            for k in i + 1..finalized.len() {
+                let (s2, h2) = finalized[k];
+                if s == s2 { return false; }
+                let (lo, hi) = if s < s2 { (h, h2) } else { (h2, h) };
+                if !anc(hi, lo) { return false; }
+            }
+        }
+        true
+    }
+
     fn panic_seen(&mut self, j: usize, op: &str, msg: &str) {
         if msg.contains("consensus safety violation") {
             self.safety_panic = true;
-            self.rec.oracle(false, "safety-assert-fired", || format!("{op}: node {j} hit a 'consensus safety violation' assertion although < 20% of the stake is Byzantine"));
+            // is consensus safety really violated on the global history? If not, the assertion itself is wrong (known finding
+            // D27: the finality tracker asserts that the notarized block of a slot is the one on the finalized chain)
+            if self.history_safe() {
+                let first = msg.lines().next().unwrap_or("").to_string();
+                self.rec.oracle(false, "safety-assert-fired-history-safe", || format!("{op}: node {j} hit a 'consensus safety violation' assertion ({first}) although the global vote history satisfies agreement (one notarized block per slot, finalized blocks on one chain, no finalized slot skip-certified){}", self.ctx));
+            } else {
+                self.rec.oracle(false, "safety-assert-fired", || format!("{op}: node {j} hit a 'consensus safety violation' assertion although < 20% of the stake is Byzantine{}", self.ctx));
+            }
         } else {
             self.rec.oracle(false, "node-panic", || format!("{op}: node {j} panicked: {msg}"));
         }
@@ -261,8 +299,15 @@ impl World<'_> {
                 let ok1 = !prev.iter().any(|x| matches!(x, HV::Notar(..) | HV::Skip(_)));
                 self.rec.oracle(ok1, "R1-one-initial-vote", || format!("node {v} notarizes ({s},{h}) after {prev:?}"));
                 if let Some(&(_, ps, ph)) = self.blocks.get(&h) {
+                    // R5 is checked on the history of the refinement theorem (`Cluster.histOf`): a Byzantine validator counts as
+                    // having signed every vote (it can). On the history of the votes the Byzantine validators were actually
+                    // made to sign, the rule is false for the implementation: `ParentReady` is also derived from finalizations
+                    // (directed case `parent-ready-from-finalization`; `cluster_rules` proves the rule on `histOf`).
+                    let nf_cert_max = |w: &World, s: u64, h: usize| (s == 0 && h == 0) || met(3, w.stake_where(|u| w.byz[u] || w.cast(u, HV::Notar(s, h)) || w.cast(u, HV::Nf(s, h))), t);
+                    let skip_cert_max = |w: &World, s: u64| met(3, w.stake_where(|u| w.byz[u] || w.cast(u, HV::Skip(s)) || w.cast(u, HV::Sf(s))), t);
+                    if s % W == 0 && !(nf_cert(self, ps, ph) && ((ps + 1)..s).all(|x| skip_cert(self, x))) { self.rec.count("R5-window-start-needs-byzantine-stake"); }
                     let ok5 = if s % W == 0 {
-                        nf_cert(self, ps, ph) && ((ps + 1)..s).all(|x| skip_cert(self, x))
+                        nf_cert_max(self, ps, ph) && ((ps + 1)..s).all(|x| skip_cert_max(self, x))
                     } else {
                         ps + 1 == s && self.cast(v, HV::Notar(ps, ph)) || (ps == 0 && ph == 0 && s == 1)
                     };
@@ -361,6 +406,85 @@ impl World<'_> {
     }
 }
 
+fn make_nodes(keys: &Keys, epochs: &[Arc<ValidatorEpochInfo>], byz: &[bool], rt: &tokio::runtime::Runtime) -> Vec<Option<RNode>> {
+    let mut nodes: Vec<Option<RNode>> = Vec::new();
+    for i in 0..byz.len() {
+        if byz[i] { nodes.push(None); continue; }
+        let (ev_tx, ev_rx) = mpsc::channel(1 << 14);
+        let (rep_tx, rep_rx) = mpsc::channel(1 << 14);
+        let pool = PoolImpl::new(epochs[i].clone(), ev_tx, rep_tx);
+        let (ptx, prx) = mpsc::channel::<PoolEvent>(4);
+        let (btx, brx) = mpsc::channel::<BlockstoreEvent>(4);
+        let a2a = Arc::new(RecA2A::default());
+        let votor = { let _g = rt.enter(); Votor::new(ValidatorIndex::new(i as u64), keys.vsks[i].clone(), prx, brx, a2a.clone()) };
+        nodes.push(Some(RNode { pool, ev_rx, rep_rx, votor, a2a, queue: VecDeque::new(), dead: false, _keep: (ptx, btx) }));
+    }
+    nodes
+}
+
+/// one operation of a directed (scripted) case
+enum D {
+    /// block `h` to node `j`'s Votor / pool
+    Vb(usize, usize),
+    Pb(usize, usize),
+    /// vote (kind, slot, hash, signer) to node `j`'s pool
+    Nv(usize, K, u64, usize, usize),
+    /// certificate (kind, slot, hash, first aggregate, second aggregate) to node `j`'s pool
+    Nc(usize, CK, u64, usize, Vec<usize>, Vec<usize>),
+    Pump(usize),
+    To(usize, u64),
+}
+
+/// Directed cases: runs that the random scheduler is very unlikely to produce, found while proving the refinement theorem
+/// (`lean/AgModel/Props/C01Cluster.lean`). Validators X = 0 (41 %), Y = 1 (39 %), A = 2 (1 %) are correct, Z = 3 (19 %) is
+/// Byzantine. Every step goes through the same code as the random cases (same oracles, same replay on the Lean model).
+fn directed(keys: &Keys, mut rec: Recorder, tag: &str, blocks: &[(usize, u64, u64, usize)], script: Vec<D>) -> Recorder {
+    let stakes: Vec<u64> = vec![41, 39, 1, 19];
+    let byz = vec![false, false, false, true];
+    let n = 4;
+    let total: u64 = stakes.iter().sum();
+    let epochs: Vec<Arc<ValidatorEpochInfo>> = (0..n).map(|i| make_epoch(keys, &stakes, i)).collect();
+    let rt = tokio::runtime::Builder::new_current_thread().enable_time().start_paused(true).build().expect("rt");
+    let nodes = make_nodes(keys, &epochs, &byz, &rt);
+    rec.begin_case(&format!("directed/{tag}"));
+    let mut w = World { keys, n, stakes: stakes.clone(), total, byz: byz.clone(), crashed: vec![false; n], epochs, nodes, blocks: BTreeMap::new(), next_hash: 1,
+        inflight: Vec::new(), history: vec![Vec::new(); n], vote_cache: HashMap::new(), rec, rt, class: 0, produced_windows: BTreeSet::new(), safety_panic: false, ctx: format!(" [directed: {tag}]") };
+    w.blocks.insert(0, (0, 0, 0));
+    for &(h, s, ps, ph) in blocks { w.blocks.insert(h, (s, ps, ph)); }
+    w.rec.step(&format!("cluster {}", stakes.iter().map(|s| s.to_string()).collect::<Vec<_>>().join(" ")), &format!("cluster n={n} total={total}"));
+    let mut rng = Rng::new(7);
+    for d in script {
+        match d {
+            D::Vb(j, h) => w.block_to_votor(j, h, &mut rng, 0),
+            D::Pb(j, h) => w.block_to_pool(j, h),
+            D::Nv(j, k, slot, h, signer) => {
+                if w.byz[signer] {
+                    let hv = match k { K::Notar => HV::Notar(slot, h), K::Nf => HV::Nf(slot, h), K::Skip => HV::Skip(slot), K::Sf => HV::Sf(slot), K::Final => HV::Fin(slot) };
+                    if !w.history[signer].contains(&hv) { w.history[signer].push(hv); }
+                }
+                w.deliver(j, &Msg::Vote(k, slot, h, signer));
+            }
+            D::Nc(j, ck, slot, h, a, b) => {
+                // the Byzantine signers of a delivered certificate have signed
+                for (half, list) in [(0, &a), (1, &b)] {
+                    for &v in list.iter() {
+                        if !w.byz[v] { continue; }
+                        let hv = match (ck, half) { (CK::Notar, _) | (CK::Ff, _) | (CK::Nf, 0) => HV::Notar(slot, h), (CK::Nf, _) => HV::Nf(slot, h), (CK::Skip, 0) => HV::Skip(slot), (CK::Skip, _) => HV::Sf(slot), (CK::Final, _) => HV::Fin(slot) };
+                        if !w.history[v].contains(&hv) { w.history[v].push(hv); }
+                    }
+                }
+                let c = build_cert(keys, ck, slot, h, &a, &b, w.epochs[0].epoch_info().validators());
+                w.deliver(j, &Msg::Cert(c));
+            }
+            D::Pump(j) => w.pump(j, &mut rng, 0),
+            D::To(j, s) => w.votor_event(j, format!("to {j} {s}"), &mut rng, 0, |v, rt| rt.block_on(v.verif_timeout(Slot::new(s), false))),
+        }
+    }
+    let class = w.class;
+    w.rec.end_case(class, true);
+    w.rec
+}
+
 fn main() {
     let args = Args::parse();
     quiet_panics();
@@ -370,6 +494,36 @@ fn main() {
     let timed = args.extra.iter().any(|a| a == "--timed");
     let cases = if args.thorough { 400 } else { 24 };
     let mut rec = Recorder::new();
+    // ---- directed cases (see `directed`); only for C01 (`--directed`): the second one ends in known finding D27
+    let run_directed = args.extra.iter().any(|a| a == "--directed");
+    if run_directed {
+    // (1) ParentReady derived from a finalization: A learns the fast-finalization of c2 = (4,40) whose registered ancestors are
+    //     cc = (3,30) -> p = (2,20); slot 3 is skip-certified; the pool announces ParentReady(4, p) although p has no
+    //     certificate, and A's Votor notarizes the pending block x = (4,41) built on p.
+    rec = directed(&keys, rec, "parent-ready-from-finalization",
+        &[(10, 1, 0, 0), (20, 2, 1, 10), (30, 3, 2, 20), (40, 4, 3, 30), (41, 4, 2, 20)],
+        vec![D::Vb(0, 10), D::Vb(0, 20), D::Vb(0, 30), D::To(1, 1), D::To(2, 1),
+             D::Nv(0, K::Notar, 3, 30, 0), D::Nv(0, K::Skip, 3, 0, 1), D::Nv(0, K::Skip, 3, 0, 2), D::Pump(0), D::Pump(0),
+             D::Nc(0, CK::Notar, 3, 30, vec![0, 3], vec![]), D::Vb(0, 40), D::Pump(0), D::Pump(0), D::Pump(0), D::Pump(0),
+             D::Nc(1, CK::Notar, 3, 30, vec![0, 3], vec![]), D::Vb(1, 40), D::Pump(1), D::Pump(1), D::Pump(1),
+             D::Nc(2, CK::Skip, 3, 0, vec![1, 2], vec![0]), D::Pb(2, 30), D::Pb(2, 40), D::Vb(2, 41),
+             D::Nc(2, CK::Ff, 4, 40, vec![0, 1, 3], vec![]), D::Pump(2), D::Pump(2), D::Pump(2), D::Pump(2)]);
+    // (2) a notarized block that is not on the finalized chain: X holds a notarization certificate for x = (2,21) (X + Z)
+    //     while y = (2,22) is notar-fallback-certified (Y, A, Z notarize it, X casts the fallback vote), the chain continues
+    //     on y: z = (3,32), f = (4,40); f is fast-finalized (X + Y). All correct nodes follow the protocol, 19 % Byzantine.
+    rec = directed(&keys, rec, "notarized-sibling-of-finalized-chain",
+        &[(10, 1, 0, 0), (21, 2, 1, 10), (22, 2, 1, 10), (32, 3, 2, 22), (40, 4, 3, 32)],
+        vec![D::Vb(0, 10), D::Vb(1, 10), D::Vb(2, 10), D::Vb(0, 21), D::Vb(1, 22), D::Vb(2, 22), D::Vb(1, 32), D::Vb(2, 32),
+             D::Nv(0, K::Notar, 1, 10, 0), D::Nv(0, K::Notar, 1, 10, 3),
+             D::Pb(0, 22), D::Nv(0, K::Notar, 2, 21, 0), D::Nv(0, K::Notar, 2, 22, 1), D::Nv(0, K::Notar, 2, 22, 2), D::Nv(0, K::Notar, 2, 22, 3),
+             D::Pump(0), D::Pump(0), D::Pump(0), D::Pump(0), D::Pump(0),
+             D::Nc(0, CK::Notar, 2, 21, vec![0, 3], vec![]), D::Nv(0, K::Nf, 2, 22, 0),
+             D::Pb(0, 32), D::Nv(0, K::Skip, 3, 0, 0), D::Nv(0, K::Notar, 3, 32, 1), D::Nv(0, K::Notar, 3, 32, 2), D::Nv(0, K::Notar, 3, 32, 3),
+             D::Pump(0), D::Pump(0), D::Pump(0), D::Pump(0), D::Pump(0), D::Pump(0), D::Pump(0),
+             D::Nv(0, K::Nf, 3, 32, 0), D::Vb(0, 40), D::Pump(0), D::Pump(0), D::Pump(0),
+             D::Nc(1, CK::Nf, 3, 32, vec![1, 2, 3], vec![0]), D::Vb(1, 40), D::Pump(1), D::Pump(1),
+             D::Pb(0, 40), D::Nv(0, K::Notar, 4, 40, 0), D::Nv(0, K::Notar, 4, 40, 1)]);
+    }
     let mut progress_stats: BTreeMap<String, u64> = BTreeMap::new();
     for _case in 0..cases {
         let n = rng.range(4, 9) as usize;
@@ -385,20 +539,9 @@ fn main() {
         if !timed && rng.chance(1, 3) { for &v in &order { if !byz[v] && rng.chance(1, 6) { crashed[v] = true; } } }
         let epochs: Vec<Arc<ValidatorEpochInfo>> = (0..n).map(|i| make_epoch(&keys, &stakes, i)).collect();
         let rt = tokio::runtime::Builder::new_current_thread().enable_time().start_paused(true).build().expect("rt");
-        let mut nodes: Vec<Option<RNode>> = Vec::new();
-        for i in 0..n {
-            if byz[i] { nodes.push(None); continue; }
-            let (ev_tx, ev_rx) = mpsc::channel(1 << 14);
-            let (rep_tx, rep_rx) = mpsc::channel(1 << 14);
-            let pool = PoolImpl::new(epochs[i].clone(), ev_tx, rep_tx);
-            let (ptx, prx) = mpsc::channel::<PoolEvent>(4);
-            let (btx, brx) = mpsc::channel::<BlockstoreEvent>(4);
-            let a2a = Arc::new(RecA2A::default());
-            let votor = { let _g = rt.enter(); Votor::new(ValidatorIndex::new(i as u64), keys.vsks[i].clone(), prx, brx, a2a.clone()) };
-            nodes.push(Some(RNode { pool, ev_rx, rep_rx, votor, a2a, queue: VecDeque::new(), dead: false, _keep: (ptx, btx) }));
-        }
+        let nodes = make_nodes(&keys, &epochs, &byz, &rt);
         let mut w = World { keys: &keys, n, stakes: stakes.clone(), total, byz: byz.clone(), crashed: crashed.clone(), epochs, nodes, blocks: BTreeMap::new(), next_hash: 1,
-            inflight: Vec::new(), history: vec![Vec::new(); n], vote_cache: HashMap::new(), rec, rt, class: 0, produced_windows: BTreeSet::new(), safety_panic: false };
+            inflight: Vec::new(), history: vec![Vec::new(); n], vote_cache: HashMap::new(), rec, rt, class: 0, produced_windows: BTreeSet::new(), safety_panic: false, ctx: String::new() };
         w.blocks.insert(0, (0, 0, 0));
         let shape = if timed { "timed" } else { *rng.pick(&["calm", "lossy", "byz-heavy", "timeouts"]) };
         w.rec.begin_case(&format!("{shape}/n{n}/byz{}", byz.iter().filter(|b| **b).count()));
